@@ -626,6 +626,9 @@ type nsAccess struct {
 	fn   string
 	pos  token.Pos
 	kind string // insert | resolve
+	// insert: the boolean fields that only the constructor of the inserted value sets (a mark on what this site adds);
+	// resolve: the boolean fields of the value found whose being set makes the lookup fail like a miss
+	marks []string
 }
 
 // nameSpaces: collection access paths (by field name) that hold cross-block names.
@@ -680,7 +683,7 @@ func (c *Ctx) ruleCollectBeforeUse() {
 					for _, l := range x.Lhs {
 						if b, _, ok := indexOn(pk, l); ok {
 							if sp := spaceOf(b); sp != "" {
-								bySpace[sp] = append(bySpace[sp], acc{i, nsAccess{f.Name(), x.Pos(), "insert"}})
+								bySpace[sp] = append(bySpace[sp], acc{i, nsAccess{f.Name(), x.Pos(), "insert", nil}})
 							}
 						}
 					}
@@ -691,7 +694,11 @@ func (c *Ctx) ruleCollectBeforeUse() {
 					}
 					if sel, ok := ast.Unparen(x.Fun).(*ast.SelectorExpr); ok {
 						if sp := spaceOf(sel.X); sp != "" && (cal.Name() == "Set" || cal.Name() == "SetToTop") {
-							bySpace[sp] = append(bySpace[sp], acc{i, nsAccess{f.Name(), x.Pos(), "insert"}})
+							var marks []string
+							if len(x.Args) == 2 {
+								marks = c.constructorMarks(f, x.Args[1])
+							}
+							bySpace[sp] = append(bySpace[sp], acc{i, nsAccess{f.Name(), x.Pos(), "insert", marks}})
 						}
 					}
 				case *ast.IfStmt:
@@ -723,7 +730,7 @@ func (c *Ctx) ruleCollectBeforeUse() {
 					}
 					if u, isNot := ast.Unparen(x.Cond).(*ast.UnaryExpr); isNot && u.Op == token.NOT {
 						if id, isId := ast.Unparen(u.X).(*ast.Ident); isId && pk.TypesInfo.Uses[id] == okObj && returnsNonNilError(pk, x.Body.List) {
-							bySpace[sp] = append(bySpace[sp], acc{i, nsAccess{f.Name(), x.Pos(), "resolve"}})
+							bySpace[sp] = append(bySpace[sp], acc{i, nsAccess{f.Name(), x.Pos(), "resolve", nil}})
 						}
 					}
 				}
@@ -762,12 +769,26 @@ func (c *Ctx) ruleCollectBeforeUse() {
 					if !ok {
 						continue
 					}
-					if u, isNot := ast.Unparen(ifs.Cond).(*ast.UnaryExpr); isNot && u.Op == token.NOT && returnsNonNilError(pk, ifs.Body.List) {
-						if id, isId := ast.Unparen(u.X).(*ast.Ident); isId {
-							if okId, ok2 := as.Lhs[1].(*ast.Ident); ok2 && pk.TypesInfo.Uses[id] == objOf(pk, okId) {
-								sp := c.nameSpaceOf(pk, sel.X)
-								bySpace[sp] = append(bySpace[sp], acc{i, nsAccess{f.Name(), ifs.Pos(), "resolve"}})
+					// `if !ok { return err }`, also `if !ok || v.mark { return err }`: when the condition is false the
+					// name was found (and the value found carries none of the marks tested)
+					if okId, ok2 := as.Lhs[1].(*ast.Ident); ok2 && returnsNonNilError(pk, ifs.Body.List) {
+						found := false
+						var marks []string
+						for _, a := range impliedAtoms(ifs.Cond, false) {
+							if id, isId := ast.Unparen(a.e).(*ast.Ident); isId && a.holds && pk.TypesInfo.Uses[id] == objOf(pk, okId) {
+								found = true
 							}
+							if fsel, isSel := ast.Unparen(a.e).(*ast.SelectorExpr); isSel && !a.holds {
+								if vid, isId := ast.Unparen(fsel.X).(*ast.Ident); isId {
+									if v0, isId0 := as.Lhs[0].(*ast.Ident); isId0 && pk.TypesInfo.Uses[vid] == objOf(pk, v0) {
+										marks = append(marks, fsel.Sel.Name)
+									}
+								}
+							}
+						}
+						if found {
+							sp := c.nameSpaceOf(pk, sel.X)
+							bySpace[sp] = append(bySpace[sp], acc{i, nsAccess{f.Name(), ifs.Pos(), "resolve", marks}})
 						}
 					}
 				}
@@ -801,7 +822,7 @@ func (c *Ctx) ruleCollectBeforeUse() {
 					// has filled (the interaction of the enclosing method, the enclosing SERVER) follows the tree, not
 					// the order of independent blocks
 					if sp := c.nameSpaceOf(pk, sel.X); sp != "" && !strings.HasPrefix(sp, "field ") {
-						bySpace[sp] = append(bySpace[sp], acc{i, nsAccess{f.Name(), ifs.Pos(), "resolve"}})
+						bySpace[sp] = append(bySpace[sp], acc{i, nsAccess{f.Name(), ifs.Pos(), "resolve", nil}})
 					}
 				}
 				return true
@@ -850,7 +871,7 @@ func (c *Ctx) ruleCollectBeforeUse() {
 					}
 				}
 				if hit {
-					bySpace[sp] = append(bySpace[sp], acc{i, nsAccess{f.Name(), ifs.Pos(), "resolve"}})
+					bySpace[sp] = append(bySpace[sp], acc{i, nsAccess{f.Name(), ifs.Pos(), "resolve", nil}})
 				}
 				return true
 			})
@@ -878,8 +899,39 @@ func (c *Ctx) ruleCollectBeforeUse() {
 		}
 		var late []string
 		seen := map[string]bool{}
+		marked := 0
 		for _, a := range bySpace[sp] {
 			if a.a.kind == "insert" && a.phase >= firstResolve {
+				// a late insert whose entries carry a mark is harmless when every lookup that can see them refuses
+				// marked entries like a miss (or is the get-or-create of the inserting function itself, or a named
+				// exception): a reference then resolves to declared names only, whatever was created on the way
+				if len(a.a.marks) > 0 {
+					harmless := true
+					for _, b := range bySpace[sp] {
+						if b.a.kind != "resolve" || b.phase < a.phase || b.a.fn == a.a.fn {
+							continue
+						}
+						if why, ok := lateInsertResolverExceptions[b.a.fn]; ok {
+							r.Except(b.a.fn, why)
+							continue
+						}
+						refuses := false
+						for _, m := range b.a.marks {
+							for _, m2 := range a.a.marks {
+								if m == m2 {
+									refuses = true
+								}
+							}
+						}
+						if !refuses {
+							harmless = false
+						}
+					}
+					if harmless {
+						marked++
+						continue
+					}
+				}
 				k := fmt.Sprintf("%s (phase %s)", a.a.fn, phases[a.phase].Obj.Name())
 				if !seen[k] {
 					seen[k] = true
@@ -888,6 +940,10 @@ func (c *Ctx) ruleCollectBeforeUse() {
 			}
 		}
 		sort.Strings(late)
+		if len(late) == 0 && marked > 0 {
+			r.Ok("C15-COLLECT-BEFORE-USE", "name space "+sp, fmt.Sprintf("the entries inserted while phase %s resolves names carry a mark set only by their constructor, and every lookup of that phase refuses marked entries like a miss: a reference resolves to declared names only", phases[firstResolve].Obj.Name()), c.pos(resolveAt.pos))
+			continue
+		}
 		if len(late) == 0 {
 			r.Ok("C15-COLLECT-BEFORE-USE", "name space "+sp, fmt.Sprintf("all inserts precede the first resolving lookup (%s, phase %s)", resolveAt.fn, phases[firstResolve].Obj.Name()), c.pos(resolveAt.pos))
 			continue
@@ -896,6 +952,94 @@ func (c *Ctx) ruleCollectBeforeUse() {
 			r.Bad("C15-COLLECT-BEFORE-USE", "name space "+sp+": insert in "+l, fmt.Sprintf("names of this space are still being inserted when phase %s already resolves them (%s): whether a reference resolves depends on the order of the blocks", phases[firstResolve].Obj.Name(), resolveAt.fn), c.pos(resolveAt.pos))
 		}
 	}
+}
+
+// lateInsertResolverExceptions: lookups that cannot meet an entry created on the way, confirmed by reading.
+var lateInsertResolverExceptions = map[string]string{
+	"catalog.(*Catalog).AddDescriptionToTag": "resolves the name of the TAG directive the Description stands under (core.addTagDescription is the handler of a Description whose parent is a TAG and hands over that parent's Name); every TAG is collected by collectTags, a phase before any path tag exists, so the name is found among the declared tags",
+}
+
+// constructorMarks: e is a variable made by a constructor of the module whose returned literal sets boolean fields to
+// true: the names of those fields, provided no other function of the package sets them (a mark on what this
+// constructor makes).
+func (c *Ctx) constructorMarks(f *Fn, e ast.Expr) []string {
+	id, ok := ast.Unparen(e).(*ast.Ident)
+	if !ok {
+		return nil
+	}
+	def := soleDef(f, id)
+	call, ok := ast.Unparen(def).(*ast.CallExpr)
+	if !ok {
+		return nil
+	}
+	cal := callee(f.Pkg, call)
+	if cal == nil {
+		return nil
+	}
+	k := c.fnOf(cal)
+	if k == nil || k.Decl == nil || k.Decl.Body == nil {
+		return nil
+	}
+	var marks []string
+	ast.Inspect(k.Decl.Body, func(nd ast.Node) bool {
+		ret, ok := nd.(*ast.ReturnStmt)
+		if !ok || len(ret.Results) != 1 {
+			return true
+		}
+		x := ast.Unparen(ret.Results[0])
+		if u, ok := x.(*ast.UnaryExpr); ok && u.Op == token.AND {
+			x = ast.Unparen(u.X)
+		}
+		lit, ok := x.(*ast.CompositeLit)
+		if !ok {
+			return true
+		}
+		for _, el := range lit.Elts {
+			kv, ok := el.(*ast.KeyValueExpr)
+			if !ok {
+				continue
+			}
+			kid, ok := kv.Key.(*ast.Ident)
+			if !ok {
+				continue
+			}
+			if tv := k.Pkg.TypesInfo.Types[kv.Value]; tv.Value != nil && tv.Value.String() == "true" {
+				marks = append(marks, kid.Name)
+			}
+		}
+		return true
+	})
+	// the mark is a mark only if nothing else sets it
+	var out []string
+	for _, m := range marks {
+		others := 0
+		for _, g := range c.libFns() {
+			if g.Pkg != k.Pkg || g.Obj == k.Obj {
+				continue
+			}
+			ast.Inspect(g.Decl.Body, func(nd ast.Node) bool {
+				switch x := nd.(type) {
+				case *ast.KeyValueExpr:
+					if kid, ok := x.Key.(*ast.Ident); ok && kid.Name == m {
+						if fv, isF := g.Pkg.TypesInfo.Uses[kid].(*types.Var); isF && fv.IsField() {
+							others++
+						}
+					}
+				case *ast.AssignStmt:
+					for _, l := range x.Lhs {
+						if fv := fieldSel(g.Pkg, l); fv != nil && fv.Name() == m {
+							others++
+						}
+					}
+				}
+				return true
+			})
+		}
+		if others == 0 {
+			out = append(out, m)
+		}
+	}
+	return out
 }
 
 // pipelinePhases: the core methods called, in order, by processJApiProject with compileCore expanded.
